@@ -36,6 +36,16 @@ func main() {
 		os.Exit(cmdCheck(os.Args[2:]))
 	case "replay":
 		os.Exit(cmdReplay(os.Args[2:]))
+	case "instrument":
+		// debugging aid: print the schedule-point instrumented version of a file
+		src, err := os.ReadFile(os.Args[2])
+		if err != nil {
+			fmt.Fprintln(os.Stderr, err)
+			os.Exit(2)
+		}
+		out, n, err := instrumentSched(filepath.Base(os.Args[2]), src)
+		fmt.Fprintf(os.Stderr, "%d points, err=%v\n", n, err)
+		os.Stdout.Write(out)
 	case "selftest":
 		os.Exit(cmdSelftest(os.Args[2:]))
 	default:
